@@ -62,6 +62,7 @@ func pathHasPrefix(p []pathStep, pre []int) bool {
 }
 
 func (e *Engine) guardsFor(t types.Type) []guardInfo {
+	t = types.Unalias(t) // type RequestsMap = coapSync.Map[...]
 	n, ok := t.(*types.Named)
 	if !ok {
 		return nil
@@ -264,7 +265,7 @@ func (e *Engine) lockIntrinsic(st *State, fr *Frame, x *ssa.Call, name string, a
 	e.Assumptions["sync.(RW)Mutex provides mutual exclusion (writers) / shared access (readers); Go memory model"] = true
 	// with generic types the location base may be an instantiation; use the location's own base for naming
 	gl := *g
-	if n, ok := p.L.Base.(*types.Named); ok {
+	if n, ok := types.Unalias(p.L.Base).(*types.Named); ok {
 		gl.typ = n
 	}
 	mk := mutexKey(p.L.Ref, g.typeName, g.mutex)
